@@ -79,7 +79,13 @@ def file_roundtrip(desc, backend, now_ms, workdir):
     """save with the backend, load through reporting.loader (default backends)."""
     m = impl()
     rep = G.build_report(desc)
-    b = m.J.JsonBackend() if backend == "json" else m.X.XmlBackend()
+    if backend == "json":
+        # the three shapes of a JSON report file: report.js (JavaScript prefix), bare JSON, indented bare JSON — chosen from the
+        # report itself so that a case always replays the same way
+        variant = sum(map(ord, desc.get("title") or "")) % 3
+        b = m.J.JsonBackend() if variant == 0 else m.J.JsonBackend(javascript_compatibility=False, pretty_formatting=(variant == 2))
+    else:
+        b = m.X.XmlBackend()
     path = os.path.join(workdir, b.get_report_filename())
     if os.path.exists(path):
         os.unlink(path)
